@@ -133,6 +133,22 @@ let crash id =
   let showd = match dget p_dir fs1 with None -> "-" | Some m -> Printf.sprintf "%o" (int_of_n m) in
   Printf.printf "%s STEPS %d DIR %s CFG %s TMP %s\n" id (List.length steps) showd (show p_cfg) (show p_tmp)
 
+let script id =
+  let dirmode = next () in
+  let n = next_int () in
+  let sizes = times n next_int in
+  let chunks = List.map (fun k -> List.init k (fun _ -> n_of_int 0)) sizes in
+  let steps = save_steps p_dir p_cfg p_tmp chunks in
+  let names = List.concat_map (function
+      | MkdirAll (_, _) -> if dirmode = "-" then ["mkdir"] else []
+      | CreateExcl (_, _) -> ["creat"]
+      | Chmod (_, _) -> ["chmod"]
+      | Write (_, d) -> [Printf.sprintf "write:%d" (List.length d)]
+      | Close _ -> ["close"]
+      | Rename (_, _) -> ["rename"]
+      | Unlink _ -> ["unlink"]) steps in
+  Printf.printf "%s SCRIPT %s\n" id (String.concat " " names)
+
 (* concurrent run: accepted when some interleaving of the threads' operations
    (each one critical section) reproduces every observed result and the final file *)
 let concurrent id =
@@ -176,6 +192,7 @@ let () =
            match kind with
            | "H" -> history id
            | "K" -> crash id
+           | "KS" -> script id
            | "S" -> concurrent id
            | "B64" -> let s = next_str () in
              Printf.printf "%s %s %s\n" id (hex_of_str (b64_encode s))
